@@ -670,7 +670,7 @@ pub fn drive(cfg: &Cfg, meta: &PropMeta, scenarios: Vec<Scenario<'_>>, post: Opt
             discarded += 1;
         } else if o.nontrivial {
             nontrivial += 1;
-            if distinct.len() < 200_000 {
+            if distinct.len() < 1_000_000 {
                 distinct.insert(o.sched_hash ^ fnv_str(sc.name));
             }
         }
@@ -708,7 +708,8 @@ pub fn drive(cfg: &Cfg, meta: &PropMeta, scenarios: Vec<Scenario<'_>>, post: Opt
             panic!("HARNESS: violation {class} of run {r} did not reproduce in-process from its bytes");
         }
         // classes whose check needs a child process are too expensive to minimise
-        let budget = if class.contains("across_processes") { 0 } else { 400 };
+        // (C38: a nondeterministic simulator makes minimisation meaningless and needs child processes)
+        let budget = if meta.id == "C38" { 0 } else { 400 };
         let min = minimise(sc, seed, bytes.clone(), class, budget);
         let fin = run_guarded(sc, &RunIn { run: *r, run_seed: seed, bytes: &min, verbose: true, deep: true });
         let (fclass, fdetail) = fin.violation.clone().unwrap_or((class.clone(), detail.clone()));
